@@ -125,7 +125,7 @@ func checkC05(c *Ctx) {
 	}
 	nRand, randN := 2, 4
 	if !c.Quick() {
-		nRand, randN = 12, 6
+		nRand, randN = 12, 5 // 6 tokens on the varied grammars took more than 35 minutes
 	}
 	for _, g := range append(RandomGrammars(int64(c.Seed)+1000, nRand/2, true), VariedGrammars(int64(c.Seed)+1000, nRand-nRand/2, true)...) {
 		ga := g.WithRecordingActions()
